@@ -88,6 +88,10 @@ def shadow_program(ctx, k):
         "macrolet-body": "(macrolet ((car (a b) ''shadow)) %s)" % call,
         "let*-later-value": "(let* ((car %s) (v %s)) v)" % (lam, call),
         "let*-own-value": "(let* ((car %s)) car)" % call,
+        "flet-param-body": "(flet ((g (car) %s)) (g %s))" % (call, lam),
+        "labels-param-body": "(labels ((g (car) %s)) (g %s))" % (call, lam),
+        "lambda-optional-param-body": "((lambda (&optional car) %s) %s)" % (call, lam),
+        "let-value-lambda": "(let ((car %s) (g (lambda () %s))) (g))" % (lam, call),
     }
     return t[ctx]
 
@@ -361,5 +365,5 @@ def _run(V, work, tier):
     V.coverage["cases"] = cnt
     V.coverage["traces_validated_against_impl"] = len(meta)
     V.coverage["exhaustive"] = True
-    V.coverage["explanation"] = "every well-formed shape of <= %d names x k <= %d; every registry name x k in 0..max+2; 17 shadowing contexts x k in 0..3; every file of <= %d top-level forms over two definitions of one name, its calls, two package switches, a builtin-named parameter elsewhere and direct builtin calls" % (maxlen, maxk, maxhist)
+    V.coverage["explanation"] = "every well-formed shape of <= %d names x k <= %d; every registry name x k in 0..max+2; 21 shadowing contexts x k in 0..3; every file of <= %d top-level forms over two definitions of one name, its calls, two package switches, a builtin-named parameter elsewhere and direct builtin calls" % (maxlen, maxk, maxhist)
     return V.finish()
